@@ -354,8 +354,16 @@ def rule_exact_compare(ctx):
     ctx.floor("element-wise window comparisons", n, 5)
 
 
+def rule_best_bonus(ctx):
+    """`the occurrence whose first character earns the highest bonus`: the bonus must be computed
+    from the haystack's own characters (shared rule with C03)."""
+    from props.c03 import rule_bonus_args
+    rule_bonus_args(ctx)
+
+
 def rules(ctx):
     ctx.run_rule("C05.window", rule_window)
+    ctx.run_rule("C05.best-bonus", rule_best_bonus)
     ctx.run_rule("C05.prefilter-arms", rule_prefilter_arms)
     ctx.run_rule("C05.trim-guards", rule_trim_guards)
     ctx.run_rule("C05.repr-only", rule_repr_only)
